@@ -38,7 +38,7 @@ var c14EntryNames = []string{"ToObject", "Decoder.Decode", "Decoder.ReadFrom(dir
 	"Decoder.ReadObject xK (direct reader)", "Serializer.ToObject", "Serializer.ReadFrom+Read xK"}
 
 func c14Domain() Domain {
-	return Domain{Untyped: true, EmptyStringElems: true, NilPtrElems: true, ZeroTimeElems: true, BigStrings: true, BigBinaries: true,
+	return Domain{Untyped: true, LooseDyn: true, EmptyStringElems: true, NilPtrElems: true, ZeroTimeElems: true, BigStrings: true, BigBinaries: true,
 		FarDates: true, AllDoubles: true, OddMaps: true, MaxListLen: 10, MaxMapLen: 4}
 }
 
@@ -267,7 +267,10 @@ func c14DecodeOnce(entry int, data []byte, tail error, tm map[string]reflect.Typ
 	K := nvals + 2
 	a0 := heapAllocs()
 	var rd *SimReader
-	call := func(f func() (interface{}, error)) (stop bool) {
+	// guard runs library code; a panic that escapes it is the verdict (constructors included: the one-shot
+	// entry points construct their decoder inside the call, so a constructor that panics on a legal
+	// type map is an entry point that crashes)
+	guard := func(f func()) (stop bool) {
 		defer func() {
 			if r := recover(); r != nil {
 				if _, ok := r.(budgetSentinel); ok {
@@ -287,52 +290,67 @@ func c14DecodeOnce(entry int, data []byte, tail error, tm map[string]reflect.Typ
 				stop = true
 			}
 		}()
-		v, err := f()
-		if err != nil {
-			res.errs++
-		} else {
-			res.values++
-		}
-		_ = v
+		f()
 		return false
+	}
+	call := func(f func() (interface{}, error)) (stop bool) {
+		return guard(func() {
+			v, err := f()
+			if err != nil {
+				res.errs++
+			} else {
+				res.values++
+			}
+			_ = v
+		})
 	}
 	switch entry {
 	case c14ToObject:
 		call(func() (interface{}, error) { return hessian.ToObject(data, tm) })
 	case c14DecoderDecode:
-		d := hessian.NewDecoder(nil, tm)
-		call(func() (interface{}, error) { return d.Decode(data) })
+		var d *hessian.Decoder
+		if !guard(func() { d = hessian.NewDecoder(nil, tm) }) {
+			call(func() (interface{}, error) { return d.Decode(data) })
+		}
 	case c14ReadFrom:
-		d := hessian.NewDecoder(nil, tm)
+		var d *hessian.Decoder
 		rd = NewSimReader(data, tail)
 		rd.ZeroEvery = c14ZeroEvery
-		call(func() (interface{}, error) { return d.ReadFrom(rd) })
+		if !guard(func() { d = hessian.NewDecoder(nil, tm) }) {
+			call(func() (interface{}, error) { return d.ReadFrom(rd) })
+		}
 	case c14StreamBufio:
 		rd = NewSimReader(data, tail)
 		rd.ZeroEvery = c14ZeroEvery
-		d := hessian.NewDecoder(bufio.NewReaderSize(rd, bufSize), tm)
-		for i := 0; i < K; i++ {
-			if call(d.ReadObject) {
-				break
+		var d *hessian.Decoder
+		if !guard(func() { d = hessian.NewDecoder(bufio.NewReaderSize(rd, bufSize), tm) }) {
+			for i := 0; i < K; i++ {
+				if call(d.ReadObject) {
+					break
+				}
 			}
 		}
 	case c14StreamDirect:
 		rd = NewSimReader(data, tail)
 		rd.ZeroEvery = c14ZeroEvery
-		d := hessian.NewDecoder(rd, tm)
-		for i := 0; i < K; i++ {
-			if call(d.ReadObject) {
-				break
+		var d *hessian.Decoder
+		if !guard(func() { d = hessian.NewDecoder(rd, tm) }) {
+			for i := 0; i < K; i++ {
+				if call(d.ReadObject) {
+					break
+				}
 			}
 		}
 	case c14SerToObject:
-		s := hessian.NewSerializer(tm, nil)
-		call(func() (interface{}, error) { return s.ToObject(data) })
+		var s hessian.Serializer
+		if !guard(func() { s = hessian.NewSerializer(tm, nil) }) {
+			call(func() (interface{}, error) { return s.ToObject(data) })
+		}
 	case c14SerReadFromRead:
-		s := hessian.NewSerializer(tm, nil)
+		var s hessian.Serializer
 		rd = NewSimReader(data, tail)
 		rd.ZeroEvery = c14ZeroEvery
-		if !call(func() (interface{}, error) { return s.ReadFrom(rd) }) {
+		if !guard(func() { s = hessian.NewSerializer(tm, nil) }) && !call(func() (interface{}, error) { return s.ReadFrom(rd) }) {
 			for i := 1; i < K; i++ {
 				if call(s.Read) {
 					break
